@@ -30,7 +30,7 @@ func init() {
 		FaultKinds: []string{"split-inside-number", "split-inside-string", "split-inside-escape", "split-inside-rune", "split-inside-literal",
 			"split-in-whitespace", "split-at-structural", "zero-read", "data+eof", "data+err", "eof-inside-value", "eof-clean-early", "err-inside-value", "err-at-boundary",
 			"err-kind-unexpected-eof", "err-kind-custom", "err-kind-wrapped", "cut-right-after-number"},
-		ProbeNames: []string{"refills>1", "value-longer-than-first-read-batch", "whitespace-run>64KiB", "values-decoded", "stream>32KiB", "stream>64KiB", "number-ends-at-read-boundary", "batch-boundary-inside-number", "batch-boundary-inside-token", "batch-boundary-inside-whitespace", "terminal-rechecked", "buffered-after-terminal-checked", "parse-remainder-checked", "buffered-checked"},
+		ProbeNames: []string{"refills>1", "value-longer-than-first-read-batch", "whitespace-run>64KiB", "values-decoded", "stream>32KiB", "stream>64KiB", "number-ends-at-read-boundary", "batch-boundary-inside-number", "batch-boundary-inside-token", "batch-boundary-inside-whitespace", "terminal-rechecked", "buffered-after-terminal-checked", "parse-remainder-checked", "buffered-checked", "values-rechecked-after-buffer-refills"},
 		Real:       []string{"json.Decoder (readValue, Buffered, InputOffset), json.Parse, the whole json decode path, compiled from /repo's working tree"},
 		Model:      []string{"io.Reader (simio.Reader: scripted chunking, zero reads, data+err, terminal errors)", "reference: encoding/json.Decoder of the toolchain, fed the delivered bytes in a single read"},
 		Assumptions: []string{
@@ -514,6 +514,7 @@ func c11Exec(r *core.Run, sc *c11Scenario) {
 	}
 	prevOff := int64(0)
 	var got int
+	var gotVals []any
 	var termErr error
 	eofFinal := final == io.EOF
 	for {
@@ -583,12 +584,24 @@ func c11Exec(r *core.Run, sc *c11Scenario) {
 				return
 			}
 		}
+		gotVals = append(gotVals, v)
 		got++
 		if got > len(fullSpans)+2 {
 			break
 		}
 	}
 	r.ProbeN("values-decoded", int64(got))
+	// the values that were yielded are still those values once the later Decode
+	// calls have refilled and compacted the read buffer
+	for i, v := range gotVals {
+		if !reflect.DeepEqual(v, refVals[i]) {
+			r.Fail("value-mismatch", "value-changed-after-later-decodes", "the value Decode #%d (%s) yielded changed while later values were decoded: now %s, reference %s", i, c11ModeNames[mode], show(v), show(refVals[i]))
+			return
+		}
+	}
+	if len(rd.Batches) > 1 && len(gotVals) > 1 {
+		r.Probe("values-rechecked-after-buffer-refills")
+	}
 
 	// ---- terminal behaviour ---------------------------------------------------
 	cleanRef := refTerm == io.EOF
